@@ -139,6 +139,7 @@ pub struct Stats {
     pub refused_cycles: u64,
     pub safe_values_checked: u64,
     pub restart_checked: bool,
+    pub debugger_writes_queued_while_halted: u64,
 }
 
 fn expect_safe(c: &Case) -> bool {
@@ -235,7 +236,7 @@ pub fn run_case(c: &Case) -> Result<Stats, (String, String)> {
             return Err((format!("fault|wrong-error|{}", parts[2]), format!("injected {} but the cycle reported {got}", c.fault)));
         }
     }
-    let mut st = Stats { fired: true, refused_cycles: 0, safe_values_checked: 0, restart_checked: false };
+    let mut st = Stats { fired: true, refused_cycles: 0, safe_values_checked: 0, restart_checked: false, debugger_writes_queued_while_halted: 0 };
     // latch
     if !h.runtime().faulted() {
         return Err(("latch|not-faulted".into(), format!("after {} ({err:?}) faulted() is false", c.fault)));
@@ -277,7 +278,19 @@ pub fn run_case(c: &Case) -> Result<Stats, (String, String)> {
     // refusal: later cycles execute nothing and change nothing
     let before = walk::snapshot(h.runtime().storage());
     let out_before = h.runtime().io().outputs().to_vec();
+    // every other fault point: a debugger is attached to the halted resource and keeps queueing variable and I/O writes
+    // (what a DAP setVariable or a control-endpoint write does); a refused cycle must not apply them
+    let with_debugger = (c.cycle as usize + c.fault.len() + c.safe.len() + c.policy.len()) % 2 == 0;
+    let dbg = if with_debugger { Some(h.runtime_mut().enable_debug()) } else { None };
     for k in 0..3 {
+        if let Some(d) = &dbg {
+            d.enqueue_global_write("sink", Value::DInt(4242 + k as i32));
+            d.enqueue_global_write("c3", Value::DInt(-7));
+            if let Ok(a) = IoAddress::parse("%QB1") {
+                d.enqueue_io_write(a, Value::Byte(0xA5));
+            }
+            st.debugger_writes_queued_while_halted += 3;
+        }
         h.advance_time(Duration::from_millis(1));
         let s0 = trust_runtime::verif::stmt_count();
         let r = h.cycle();
@@ -293,10 +306,10 @@ pub fn run_case(c: &Case) -> Result<Stats, (String, String)> {
     }
     let after = walk::snapshot(h.runtime().storage());
     if let Some(d) = walk::first_diff(&before, &after) {
-        return Err(("refusal|variable-changed".into(), format!("a refused cycle changed {d}")));
+        return Err((if with_debugger { "refusal|variable-changed|debugger-write-applied".into() } else { "refusal|variable-changed".into() }, format!("a refused cycle changed {d}")));
     }
     if h.runtime().io().outputs() != &out_before[..] {
-        return Err(("refusal|outputs-changed".into(), "a refused cycle changed the output image".into()));
+        return Err((if with_debugger { "refusal|outputs-changed|debugger-write-applied".into() } else { "refusal|outputs-changed".into() }, "a refused cycle changed the output image".into()));
     }
     // restart clears the latch and cycles run again
     for sc in &scripts {
@@ -433,6 +446,7 @@ fn one(sh: &mut Shard, c: &Case) {
             }
             sh.count("faults_fired", 1);
             sh.count("refused_cycles_checked", st.refused_cycles);
+            sh.count("debugger_writes_queued_while_halted", st.debugger_writes_queued_while_halted);
             sh.count("safe_values_checked", st.safe_values_checked);
             sh.count("restarts_checked", st.restart_checked as u64);
             sh.seen("fault_classes", c.fault.clone());
